@@ -533,14 +533,29 @@ class Chopper:
         npulses:
             Number of pulses to rotate the chopper for.
         """
-        tpulse = 1.0 / pulse_frequency
-        topen = disk_chopper.time_offset_open(pulse_frequency=pulse_frequency)
-        tclose = disk_chopper.time_offset_close(pulse_frequency=pulse_frequency)
-        offsets = sc.arange('pulse', npulses) * tpulse
+        # Raises if the chopper is out of phase with the source.
+        disk_chopper._source_phase_factor(pulse_frequency)
+        rotations_per_pulse = (
+            abs(disk_chopper.frequency)
+            / pulse_frequency.to(unit=disk_chopper.frequency.unit)
+        ).value
+        # Rotate the chopper for as many full turns as needed to cover npulses.
+        # Repeating the openings of a single pulse with an offset of one pulse
+        # period per pulse would duplicate rotations (frequency >= pulse_frequency)
+        # or shift them by a fraction of a turn (frequency < pulse_frequency).
+        n_rotations = max(int(np.ceil(npulses * rotations_per_pulse - 1e-6)), 1)
+        if disk_chopper.is_clockwise:
+            open_edges, close_edges = disk_chopper.slit_begin, disk_chopper.slit_end
+        else:
+            open_edges, close_edges = disk_chopper.slit_end, disk_chopper.slit_begin
         return cls(
             distance=sc.norm(disk_chopper.axle_position),
-            time_open=(offsets + topen).flatten(to=topen.dim),
-            time_close=(offsets + tclose).flatten(to=tclose.dim),
+            time_open=disk_chopper.time_offset_angle_at_beam(
+                angle=open_edges, n_repetitions=n_rotations
+            ),
+            time_close=disk_chopper.time_offset_angle_at_beam(
+                angle=close_edges, n_repetitions=n_rotations
+            ),
         )
 
 
